@@ -291,7 +291,7 @@ def run(ctx):
             p, a, b = c
             cfg = curve_cfg(ctx, p, a, b)
             n = len([1 for x in range(p) for y in range(p) if (y * y - x ** 3 - a * x - b) % p == 0]) + 1
-            return ctx.table("curve/MC_Curve.tla", cfg, env={"KMAX": 2 * n + 1, "ASSOC": 1 if p <= 43 or not q else 0}, timeout=3000, workers=2)
+            return ctx.table("curve/MC_Curve.tla", cfg, env={"KMAX": 2 * n + 1, "ASSOC": 1 if p <= 43 or not q else 0}, timeout=7200, workers=2)
         tabs = ctx.parallel([(lambda c=c: job(c)) for c in curves], workers=8)
         for tab in tabs:
             if not tab:
@@ -304,7 +304,7 @@ def run(ctx):
     if ctx.want("real"):
         cases = real_cases(ctx, rng, 4 if q else 60)
         byid = {c["id"]: c for c in cases}
-        bad = ctx.validate("curve/C03Cases.tla", cases, "C03Cases.cfg", timeout=3000, per_shard_min=2)
+        bad = ctx.validate("curve/C03Cases.tla", cases, "C03Cases.cfg", timeout=7200, per_shard_min=2)
         for cid, why in bad.items():
             c = byid[cid]
             ctx.violation("real:%s:%s" % (c["kind"], why), "secp256k1 %s case %s rejected: %s" % (c["kind"], cid, why), {"kind": "case", "case": {k: v for k, v in c.items() if k != "adds"}})
